@@ -34,6 +34,8 @@ import (
 //	wq / wflush / s5: see eng_httpauth_web.go (static_file plugin, frps dashboard, frpc admin API, socks5 plugin)
 //	h2c: see eng_httpauth_h2c.go (one connection upgraded to HTTP/2 and the further streams sent on it)
 //	treset / tpx / tclose / tconn / tview: see eng_httpauth_tmux.go (real server-side tcpmux proxies on a real muxer)
+//	horeset / holisten / hoconn / hoclose / hoaccept, greset / gjoin / gleave / greq: see eng_httpauth_r5.go (hand-off of an
+//	       accepted CONNECT to a listener that may close meanwhile; http load-balancing groups and their credentials)
 //	pl   <user> <pass> <pauth>                           => true | false  plugin http_proxy Auth
 //	plc  <user> <pass> (<method> <pauth>)+               => <r1>,<r2>,…   plugin http_proxy Handle: ONE work connection
 //	       carrying the requests in turn (CONNECT-like methods target the protected TCP service, the others
@@ -241,6 +243,54 @@ func authHeader(tok string) (string, bool) {
 	return scheme + " " + base64.StdEncoding.EncodeToString([]byte(unhx(parts[1])+":"+unhx(parts[2]))), true
 }
 
+// haReqOver: one HTTP/1.1 request (o = origin-form, a = absolute-form, c = CONNECT) written to the reverse proxy's
+// server at addr; 401 | fwd:<id> | 404 | st:<code>
+func haReqOver(addr, form, host, path, authTok, pauthTok string) string {
+	c, err := net.DialTimeout("tcp", addr, 2*time.Second)
+	if err != nil {
+		return "dialerr"
+	}
+	defer c.Close()
+	_ = c.SetDeadline(time.Now().Add(10 * time.Second))
+	var sb strings.Builder
+	switch form {
+	case "o":
+		fmt.Fprintf(&sb, "GET %s HTTP/1.1\r\nHost: %s\r\n", path, host)
+	case "a":
+		fmt.Fprintf(&sb, "GET http://%s%s HTTP/1.1\r\nHost: %s\r\n", host, path, host)
+	case "c":
+		fmt.Fprintf(&sb, "CONNECT %s HTTP/1.1\r\nHost: %s\r\n", host, host)
+	}
+	if h, ok := authHeader(authTok); ok {
+		fmt.Fprintf(&sb, "Authorization: %s\r\n", h)
+	}
+	if h, ok := authHeader(pauthTok); ok {
+		fmt.Fprintf(&sb, "Proxy-Authorization: %s\r\n", h)
+	}
+	sb.WriteString("Connection: close\r\n\r\n")
+	if _, err := c.Write([]byte(sb.String())); err != nil {
+		return "writeerr"
+	}
+	method := "GET"
+	if form == "c" {
+		method = "CONNECT"
+	}
+	resp, err := http.ReadResponse(bufio.NewReader(c), &http.Request{Method: method})
+	if err != nil {
+		return "readerr"
+	}
+	defer resp.Body.Close()
+	switch {
+	case resp.StatusCode == 401:
+		return "401"
+	case resp.StatusCode == 404:
+		return "404"
+	case resp.StatusCode == 200 && resp.Header.Get("X-Id") != "":
+		return "fwd:" + resp.Header.Get("X-Id")
+	}
+	return "st:" + strconv.Itoa(resp.StatusCode)
+}
+
 func httpAuthExec(tok []string) string {
 	if has == nil {
 		httpAuthReset()
@@ -252,10 +302,19 @@ func httpAuthExec(tok []string) string {
 	if r, ok := httpAuthTmuxExec(tok); ok {
 		return r
 	}
+	if r, ok := httpAuthR5Exec(tok); ok {
+		return r
+	}
 	switch tok[0] {
 	case "reset":
 		httpAuthReset()
 		hatReset("")
+		if hoSt != nil {
+			hoReset()
+		}
+		if hgSt != nil {
+			hgReset()
+		}
 		return "-"
 	case "h2c":
 		return st.hah2Conn(tok)
@@ -275,50 +334,7 @@ func httpAuthExec(tok []string) string {
 		st.rp.UnRegister(vhost.RouteConfig{Domain: unhx(tok[1]), Location: unhx(tok[2]), RouteByHTTPUser: unhx(tok[3])})
 		return "-"
 	case "req":
-		form, host, path := tok[1], unhx(tok[2]), unhx(tok[3])
-		c, err := net.DialTimeout("tcp", st.addr, 2*time.Second)
-		if err != nil {
-			return "dialerr"
-		}
-		defer c.Close()
-		_ = c.SetDeadline(time.Now().Add(10 * time.Second))
-		var sb strings.Builder
-		switch form {
-		case "o":
-			fmt.Fprintf(&sb, "GET %s HTTP/1.1\r\nHost: %s\r\n", path, host)
-		case "a":
-			fmt.Fprintf(&sb, "GET http://%s%s HTTP/1.1\r\nHost: %s\r\n", host, path, host)
-		case "c":
-			fmt.Fprintf(&sb, "CONNECT %s HTTP/1.1\r\nHost: %s\r\n", host, host)
-		}
-		if h, ok := authHeader(tok[4]); ok {
-			fmt.Fprintf(&sb, "Authorization: %s\r\n", h)
-		}
-		if h, ok := authHeader(tok[5]); ok {
-			fmt.Fprintf(&sb, "Proxy-Authorization: %s\r\n", h)
-		}
-		sb.WriteString("Connection: close\r\n\r\n")
-		if _, err := c.Write([]byte(sb.String())); err != nil {
-			return "writeerr"
-		}
-		method := "GET"
-		if form == "c" {
-			method = "CONNECT"
-		}
-		resp, err := http.ReadResponse(bufio.NewReader(c), &http.Request{Method: method})
-		if err != nil {
-			return "readerr"
-		}
-		defer resp.Body.Close()
-		switch {
-		case resp.StatusCode == 401:
-			return "401"
-		case resp.StatusCode == 404:
-			return "404"
-		case resp.StatusCode == 200 && resp.Header.Get("X-Id") != "":
-			return "fwd:" + resp.Header.Get("X-Id")
-		}
-		return "st:" + strconv.Itoa(resp.StatusCode)
+		return haReqOver(st.addr, tok[1], unhx(tok[2]), unhx(tok[3]), tok[4], tok[5])
 	case "mreg":
 		id := atoi(tok[5])
 		l, err := st.mux.Listen(context.Background(), &vhost.RouteConfig{
@@ -521,14 +537,21 @@ func haPlugAuthTok(rng *rand.Rand, u, p string) string {
 func httpAuthGen(rng *rand.Rand, n int, emit func(string)) {
 	emit("reset")
 	id := 0
+	hoLid, hoCid, hgPid := 0, 0, 0
 	regs := []hah2Reg{} // the http routes asked for since the last reset
 	for i := 0; i < n; i++ {
-		k := rng.Intn(2296)
+		k := rng.Intn(2316)
 		switch {
+		case k >= 2296 && k < 2306:
+			// hand-off in Muxer.handle: listeners the harness accepts from (or not), closed while connections wait
+			i += hoGenBurst(rng, emit, &hoLid, &hoCid)
+		case k >= 2306:
+			// http load-balancing groups: membership histories x credential pairs, requests through ServeHTTP
+			i += hgGenBurst(rng, emit, &hgPid)
 		case k >= 2086 && k < 2286:
 			// one connection upgraded to HTTP/2 (or opened with prior knowledge) carrying 1..4 further streams
 			emit(hah2Gen(rng, regs))
-		case k >= 2286:
+		case k >= 2286 && k < 2296:
 			// server-side tcpmux proxies, a burst on a fresh muxer: real NewProxy(tcpmux).Run / Close, real
 			// CONNECT requests, listener dumps
 			tsh := pick(rng, hatSHs)
